@@ -284,9 +284,21 @@ def run_case(case):
             obs["viols"].append({"sig": sig, "detail": detail})
             return obs
         detail.setdefault("counterfactuals", []).append([sig, r2["status"]])
-    if ftaints and kind in ("value",):
-        obs["viols"].append({"sig": "C01/value/" + sorted(ftaints)[0], "detail": detail})
-        return obs
+    if "STR$-trailing-blank" in ftaints:
+        # hypothesis test: does the Color BASIC side, with STR$ emulated as 'PRINT format including the trailing
+        # blank', agree with what the emitted program did?  Only then is the case attributed to that defect.
+        from ..cbref import interp as cbi
+
+        cbi.HYPOTHESIS.add("STR$-trailing-blank")
+        try:
+            variants = [(ctx, e)] + [(c2, e2) for _, c2, e2 in attempts]
+            for c2, e2 in variants:
+                r4 = evaluate(c2, e2)
+                if r4["status"] in ("held", "dropped", "refused"):
+                    obs["viols"].append({"sig": "C01/value/STR$-trailing-blank", "detail": detail})
+                    return obs
+        finally:
+            cbi.HYPOTHESIS.discard("STR$-trailing-blank")
     obs["viols"].append({"sig": "C01/%s/%s" % (kind, ctx), "detail": detail})
     return obs
 
